@@ -54,6 +54,8 @@ def in_c01_domain(s, allow_empty_axis=False):
                         return 'list metadata outside the reserved form'
                 else:
                     return 'metadata kind %s' % type(v).__name__
+            if kinds == {'int', 'float'}:
+                kinds = {'float'}       # all numeric
             if len(kinds) > 1:
                 return 'heterogeneous category'
             if kinds == {'float'} and not all(np.isfinite(v) for v in vals):
@@ -65,7 +67,8 @@ def in_c01_domain(s, allow_empty_axis=False):
 
 HISTORY_OPS = ['none', 'none', 'filter', 'sort', 'transpose', 'subsample',
                'update_ids', 'norm', 'head', 'concat-self', 'merge-self',
-               'collapse', 'pa', 'remove_empty']
+               'collapse', 'pa', 'remove_empty', 'hdf5-roundtrip',
+               'hdf5-roundtrip', 'json-roundtrip', 'collapse-ids']
 
 
 def apply_history(ctx, r, t, spec):
@@ -118,6 +121,32 @@ def apply_history(ctx, r, t, spec):
                                axis=axis)
         elif op == 'pa':
             t = t.pa(inplace=False)
+        elif op == 'hdf5-roundtrip':
+            # a table whose history includes an earlier write + load (its
+            # metadata then holds what the reader produced, e.g. numpy
+            # scalars)
+            if in_c01_domain(snap.snap(t)) is None:
+                p = ctx.path('hist%d.biom' % os.getpid())
+                try:
+                    ctx.biom.save_table(t, p)
+                    t = ctx.biom.load_table(p)
+                finally:
+                    if os.path.exists(p):
+                        os.remove(p)
+                if r.random() < .5:
+                    ids = list(t.ids(axis=axis))
+                    r.shuffle(ids)
+                    t = t.sort_order(ids, axis=axis)
+        elif op == 'json-roundtrip':
+            import json
+            ty = t.type
+            t = ctx.biom.Table.from_json(json.loads(t.to_json('vm')))
+            t.type = ty
+        elif op == 'collapse-ids':
+            # collapsed_ids metadata made of the (possibly non-ASCII) ids
+            if np.all(np.abs(spec.D) < 1e150) and spec.md(axis) is None:
+                t = t.collapse(lambda i, m: 'g%d' % (len(i) % 2), norm=False,
+                               axis=axis)
         elif op == 'remove_empty':
             t = t.remove_empty(inplace=False)
     except Exception as e:    # history ops are not the subject here
@@ -141,6 +170,37 @@ def write_config(r):
         cfg['date'] = 'omitted'
         cfg['generated_by'] = None
     return cfg
+
+
+def reloaded_group_metadata(ctx, t, index, sig_prefix, desc):
+    """Known mechanism: from_hdf5 keeps only the text of a group-metadata
+    entry while to_hdf5 needs (data type, text) pairs, so a loaded table that
+    carries group metadata cannot be written again.  Recorded without
+    aborting the case; the entries are then given a data type so the rest of
+    the case can run."""
+    hit = False
+    for axis in ('observation', 'sample'):
+        g = t.group_metadata(axis=axis)
+        if g and any(isinstance(v, str) for v in g.values()):
+            hit = True
+    if not hit:
+        return
+    import h5py
+    try:
+        with h5py.File(ctx.path('probe%d.biom' % os.getpid()), 'w',
+                       driver='core', backing_store=False) as f:
+            t.to_hdf5(f, 'probe')
+    except ValueError as e:
+        ctx.violation(index, sig_prefix + '/reloaded-group-metadata-'
+                      'unwritable', 'to_hdf5 raised ValueError(%s) for a '
+                      'table that was loaded from an HDF5 file with group '
+                      'metadata; case=%r' % (e, desc))
+    for axis in ('observation', 'sample'):
+        g = t.group_metadata(axis=axis)
+        if g:
+            for k, v in list(g.items()):
+                if isinstance(v, str):
+                    g[k] = ('newick', v)
 
 
 def write(ctx, t, cfg, path):
@@ -175,9 +235,66 @@ def write(ctx, t, cfg, path):
     return {'date': date, 'window': (t0, t1)}
 
 
+SHIPPED = ['biom/tests/test_data/test.biom',
+           'biom/tests/test_cli/test_data/test.biom',
+           'biom/tests/test_data/test_grp_metadata.biom',
+           'biom/tests/test_data/edgecase_issue_952.biom',
+           'examples/min_sparse_otu_table_hdf5.biom',
+           'examples/rich_sparse_otu_table_hdf5.biom',
+           'examples/rich_sparse_otu_table_hdf5_group_metadata.biom',
+           'examples/rich_sparse_otu_table.biom',
+           'examples/min_sparse_otu_table.biom']
+
+
+def shipped_case(ctx, index, r):
+    """A table whose history starts with loading one of the files shipped
+    with the repository (BIOM 2.0, 2.1 and 1.0 files), optionally followed by
+    an in-place operation; it is then written like any other table."""
+    from vm import common
+    rel = SHIPPED[(index // 13) % len(SHIPPED)]
+    src_path = os.path.join(common.REPO, rel)
+    if not os.path.exists(src_path):
+        ctx.skip('shipped file missing: ' + rel)
+        return None
+    t = ctx.biom.load_table(src_path)
+    hist = 'load:' + rel
+    k = r.choice(['none', 'none', 'filter-inplace', 'pa-inplace',
+                  'add-metadata'])
+    if k == 'filter-inplace':
+        ids = list(t.ids())
+        t.filter(ids[:max(1, len(ids) - 1)], inplace=True)
+    elif k == 'pa-inplace':
+        t.pa(inplace=True)
+    elif k == 'add-metadata':
+        t.add_metadata({i: {'added': 'x'} for i in t.ids()}, axis='sample')
+    ctx.count('shipped_file_tables')
+    return t, hist + '+' + k
+
+
 def gen_case(ctx, index, empty_axis_ok=False):
     """Returns (table, source snapshot, desc, cfg, path, written) or None."""
     r = ctx.rng(index)
+    if index % 13 == 7:
+        got = shipped_case(ctx, index, r)
+        if got is None:
+            return None
+        t, hist = got
+        st = gen.layout_state(t)
+        ctx.cls('history', 'shipped')
+        src = snap.snap(t)
+        why = in_c01_domain(src, allow_empty_axis=empty_axis_ok)
+        if why:
+            ctx.skip('shipped table outside the C01 domain: ' + why)
+            return None
+        cfg = write_config(r)
+        cfg['group_md'] = False      # keep the file's own group metadata
+        cfg['table_id'] = None
+        path = ctx.path('t%d.biom' % index)
+        if os.path.exists(path):
+            os.remove(path)
+        desc = {'table': hist, 'layout': st, 'write': cfg}
+        reloaded_group_metadata(ctx, t, index, ctx.id, desc)
+        return t, src, desc, cfg, path, r
     spec = gen.gen_spec(r, max_n=7, max_m=7, allow_empty_text=True)
     if empty_axis_ok and index % 9 == 0:
         # 0 x M or N x 0 tables (C04 only)
